@@ -211,7 +211,7 @@ def run_session(shapes, schedule, gen=None, max_rounds=60):
             if len(beta.responses) >= n and not beta.requests:
                 break
             idle = idle + 1 if before == after else 0
-            if idle >= 4:
+            if idle >= 12:  # more than the longest run of idle (empty) yields an app makes
                 break
     except Exception as ex:  # an exception escaping serviceAll is an observable outcome
         error = "%s: %s" % (type(ex).__name__, ex)
